@@ -2,6 +2,7 @@ import LlirModel.Drv.EncOps
 import LlirModel.Drv.LitOps
 import LlirModel.Drv.WriterOps
 import LlirModel.Drv.EnumOps
+import LlirModel.Drv.TypeOps
 open Llir Llir.Drv
 
 def dispatch (op : String) (args : List String) : String :=
@@ -15,6 +16,9 @@ def dispatch (op : String) (args : List String) : String :=
   | some r => r
   | none =>
   match enumOps op args with
+  | some r => r
+  | none =>
+  match typeOps op args with
   | some r => r
   | none => "unknown-op"
 
